@@ -1190,7 +1190,17 @@ pub fn run(ctx: &mut Ctx) {
                                         failures.push(("C06".into(), "F-start-wrong-target".into(), format!("start designates {got}, expected {want}")));
                                     }
                                 }
-                                None => failures.push(("C06".into(), "F-start-lost".into(), String::new())),
+                                None => {
+                                    let hist = op_tokens.join(";");
+                                    let mut props = "C06".to_string();
+                                    if hist.contains("ri:") {
+                                        props.push_str(",C10");
+                                    }
+                                    if hist.contains("l2i:") {
+                                        props.push_str(",C11");
+                                    }
+                                    failures.push((props, "F-start-lost".into(), String::new()))
+                                }
                             }
                             continue;
                         }
@@ -1198,7 +1208,16 @@ pub fn run(ctx: &mut Ctx) {
                             None => {
                                 // code injected as function-exit instrumentation that is not in the output was lost by the lowering
                                 let special = w.special_sites.contains(&s.id);
-                                let props = if special { format!("{},C22,C17", props_of(s.sp)) } else { props_of(s.sp).to_string() };
+                                let mut props = if special { format!("{},C22,C17", props_of(s.sp)) } else { props_of(s.sp).to_string() };
+                                if s.sp == Sp::F {
+                                    let hist = op_tokens.join(";");
+                                    if hist.contains("ri:") {
+                                        props.push_str(",C10");
+                                    }
+                                    if hist.contains("l2i:") {
+                                        props.push_str(",C11");
+                                    }
+                                }
                                 let what = if special { "function-exit-code".to_string() } else { class_name(&s.class).to_string() };
                                 failures.push((props, format!("{}-{}-site-missing", s.sp.ch(), what), format!("site {}", s.id)))
                             }
